@@ -30,7 +30,7 @@ Known == {"nl.bsn", "nl.onderwijsnummer", "pl.nip", "pl.regon", "pt.nif", "dk.cv
           "se.postnummer", "se.vat", "si.maticna", "sm.coe", "sv.nit", "th.moa",
           "bg.egn", "cu.ni", "cz.rc", "sk.rc", "lt.asmens", "ro.cnp", "kr.rrn", "gr.amka", "is_.kennitala",
           "es.cups", "es.nif", "es.referenciacatastral", "fr.nir", "in_.gstin", "si.emso", "tn.mf", "tw.ubn", "ua.rntrc", "us.ptin",
-          "bg.vat", "cz.dic", "sk.dph", "ro.cf", "th.tin"}
+          "bg.vat", "cz.dic", "sk.dph", "ro.cf", "th.tin", "it.codicefiscale", "mu.nid", "eu.at_02"}
 (* formats with further rules (dates, ranges) that are not transcribed: the checksum is only a NECESSARY condition *)
 Necessary == {"no.fodselsnummer", "fi.hetu", "ch.ssn", "lv.pvn", "pl.pesel", "ee.ik", "at.tin", "dk.cpr", "za.idnr"}
 
@@ -121,6 +121,14 @@ RoCuiOk(c) == /\ Len(c) >= 2 /\ Len(c) <= 10 /\ IsDigits(c) /\ c[1] # 48
 ThPinOk(c) == /\ Len(c) = 13 /\ IsDigits(c) /\ D(c[1]) \notin {0, 9}
                        /\ (11 - (W(c, <<13, 12, 11, 10, 9, 8, 7, 6, 5, 4, 3, 2>>) % 11)) % 10 = D(c[13])
 ThMoaOk(c) == Len(c) = 13 /\ IsDigits(c) /\ c[1] = 48 /\ ThPinCheck(c) = D(c[13])
+ItIvaOk(c) == /\ Len(c) = 11 /\ IsDigits(c) /\ ~AllZero(SubSeq(c, 1, 7))
+                       /\ LET off == NumOf(c, 8, 10) IN ((off >= 1 /\ off <= 100) \/ off \in {120, 121, 888, 999})
+                       /\ Sum(LAMBDA i : IF i % 2 = 0 THEN DigitSum(2 * D(c[i])) ELSE D(c[i]), 11) % 10 = 0
+OmoDigit(ch) == IF ch <= 57 THEN ch - 48 ELSE IndexIn(ch, <<76, 77, 78, 80, 81, 82, 83, 84, 85, 86>>) - 1
+IsOmo(ch) == (ch \in 48..57) \/ In(ch, <<76, 77, 78, 80, 81, 82, 83, 84, 85, 86>>)
+CfOdd == <<1, 0, 5, 7, 9, 13, 15, 17, 19, 21, 2, 4, 18, 20, 11, 3, 6, 8, 12, 14, 16, 10, 22, 25, 24, 23>>
+CfMonths == <<65, 66, 67, 68, 69, 72, 76, 77, 80, 82, 83, 84>>
+CfVal(ch, odd) == LET k == IF ch <= 57 THEN ch - 48 ELSE ch - 65 IN IF odd THEN CfOdd[k + 1] ELSE k
 EstonianCheck(c, n) ==        \* check digit over the first n digits: weights 1,2,..,9,1,.. and, when that gives 10, 3,4,..,9,1,2,..
   LET s1 == Sum(LAMBDA i : (((i - 1) % 9) + 1) * D(c[i]), n) % 11
       s2 == Sum(LAMBDA i : (((i + 1) % 9) + 1) * D(c[i]), n) % 11
@@ -159,9 +167,7 @@ AcceptN(m, c) ==
                                IN (7 * odd + 9 * even) % 10 = D(c[10]) /\ (odd + even + D(c[10])) % 10 = D(c[11])
     [] m = "ch.uid" -> /\ Len(c) = 12 /\ SubSeq(c, 1, 3) = <<67, 72, 69>> /\ IsDigits(SubSeq(c, 4, 12))
                        /\ LET d == SubSeq(c, 4, 12)  r == (11 - (W(d, <<5, 4, 3, 2, 7, 6, 5, 4>>) % 11)) % 11 IN r = D(d[9])
-    [] m = "it.iva" -> /\ Len(c) = 11 /\ IsDigits(c) /\ ~AllZero(SubSeq(c, 1, 7))
-                       /\ LET off == NumOf(c, 8, 10) IN ((off >= 1 /\ off <= 100) \/ off \in {120, 121, 888, 999})
-                       /\ Sum(LAMBDA i : IF i % 2 = 0 THEN DigitSum(2 * D(c[i])) ELSE D(c[i]), 11) % 10 = 0
+    [] m = "it.iva" -> ItIvaOk(c)
     [] m = "se.orgnr" -> Len(c) = 10 /\ IsDigits(c) /\ Sum(LAMBDA i : IF i % 2 = 1 THEN DigitSum(2 * D(c[i])) ELSE D(c[i]), 10) % 10 = 0
     [] m = "fr.siren" -> Len(c) = 9 /\ IsDigits(c) /\ Sum(LAMBDA i : IF i % 2 = 0 THEN DigitSum(2 * D(c[i])) ELSE D(c[i]), 9) % 10 = 0
     [] m = "ca.sin" -> Len(c) = 9 /\ IsDigits(c) /\ c[1] \notin {48, 56} /\ Sum(LAMBDA i : IF i % 2 = 0 THEN DigitSum(2 * D(c[i])) ELSE D(c[i]), 9) % 10 = 0
@@ -477,6 +483,20 @@ AcceptN(m, c) ==
     [] m = "ro.cf" -> LET cn == IF Len(c) >= 2 /\ SubSeq(c, 1, 2) = <<82, 79>> THEN SubSeq(c, 3, Len(c)) ELSE c
                       IN IF Len(cn) = 13 THEN RoCnpOk(cn) ELSE RoCuiOk(cn)
     [] m = "th.tin" -> ThMoaOk(c) \/ ThPinOk(c)
+    [] m = "it.codicefiscale" ->
+         IF Len(c) = 11 THEN ItIvaOk(c)
+         ELSE /\ Len(c) = 16 /\ (\A i \in (1..6) \cup {12, 16} : c[i] \in 65..90) /\ (\A i \in {7, 8, 10, 11, 13, 14, 15} : IsOmo(c[i]))
+              /\ In(c[9], CfMonths)
+              /\ c[16] = 65 + (Sum(LAMBDA i : CfVal(c[i], i % 2 = 1), 15) % 26)
+              /\ LET yy == 10 * OmoDigit(c[7]) + OmoDigit(c[8])  dd == 10 * OmoDigit(c[10]) + OmoDigit(c[11])
+                     day == IF dd > 40 THEN dd - 40 ELSE dd
+                 IN (dd \in 1..31 \/ dd \in 41..71) /\ NRealDate((IF yy >= 20 THEN 1900 ELSE 2000) + yy, IndexIn(c[9], CfMonths), day)
+    [] m = "mu.nid" -> /\ Len(c) = 14 /\ c[1] \in 65..90 /\ IsDigits(SubSeq(c, 2, 13)) /\ ((c[14] \in 48..57) \/ (c[14] \in 65..90))
+                       /\ EicVal(c[14]) = (17 - (Sum(LAMBDA i : (15 - i) * EicVal(c[i]), 13) % 17)) % 17
+                       /\ NRealDate(2000 + NumOf(c, 6, 7), NumOf(c, 4, 5), NumOf(c, 2, 3))
+    [] m = "eu.at_02" -> /\ Len(c) >= 1 /\ (\A i \in 1..Len(c) : (c[i] \in 48..57) \/ (c[i] \in 65..90))
+                         /\ LET t == (IF Len(c) >= 8 THEN SubSeq(c, 8, Len(c)) ELSE <<>>) \o SubSeq(c, 1, IF Len(c) < 4 THEN Len(c) ELSE 4)
+                            IN Mod97Alnum(t) = 1
 
 (* checksum parts of formats with further rules *)
 NecessaryN(m, c) ==
